@@ -232,9 +232,9 @@ void sink_case(std::string const &name, std::basic_string<Ch> const &ref, bool b
                 vrt::fmt("%s: the stream is good() after the call but the sink holds %zu of %zu characters [%s] want [%s]", where.c_str(),
                          acc.size(), ref.size(), hexs(acc).c_str(), hexs(ref).c_str()));
   }
-  if (byte_exact)
-    VRT_CHECK(acc.size() <= ref.size() && ref.compare(0, acc.size(), acc) == 0, name + ":sink_not_a_prefix", "%s: the sink holds [%s], reference [%s]",
-              where.c_str(), hexs(acc).c_str(), hexs(ref).c_str());
+  // what reaches the sink before a REPORTED failure is not specified by the property: information only
+  if (byte_exact && !(acc.size() <= ref.size() && ref.compare(0, acc.size(), acc) == 0))
+    vrt::count("info:failed_write_left_something_other_than_a_prefix");
   if (accepts_all)
     VRT_CHECK(good && acc.size() == ref.size(), name + ":complete_sink_failed", "%s: good=%d threw=%d, the sink holds %zu of %zu characters",
               where.c_str(), int(os.good()), int(threw), acc.size(), ref.size());
@@ -597,8 +597,9 @@ void wide_tokens(char const *locname)
           is >> r;
           VRT_CHECK(is.fail(), n_in + ":accepted", "wide token %s was read as enumerator %s (stream not failed)", showw(t).c_str(),
                     c15v::tone_names[static_cast<int>(r)]);
-          VRT_CHECK(r == before, n_in + ":target_overwritten", "wide token %s: the target became %s", showw(t).c_str(),
-                    c15v::tone_names[static_cast<int>(r)]);
+          // enum/input.hpp only promises "In case this fails, the failbit of _stream is set": information only
+          if (r != before)
+            vrt::count("info:enum_input_failure_changed_target");
         }
       }
       if (vrt::begin_text(n_ex.c_str(), n_ex + "(" + d + ")"))
